@@ -28,6 +28,7 @@ pub const EDITS: &[&str] = &[
     "duplicate-last-tx",
     "insert-spv-stub",
     "insert-spv-stub",
+    "remove-all-txs",
 ];
 
 #[derive(Clone, Debug, Serialize, Deserialize)]
@@ -68,7 +69,7 @@ impl Scenario for C06 {
     fn meta(&self) -> Meta {
         Meta {
             level: "exploration",
-            rule: "run = honest history of 2..8/15 blocks (2-5 zero- and non-zero-fee payments each); the block at a seeded position is edited by one of 10 edits that keep it decodable: swap two transactions, replace a transaction by another valid one with the same fee, add / remove a zero-fee transaction, duplicate the last transaction, insert a slip-less SPV-typed stub (standing for 0 or 1 transactions), change a transaction payload (all without touching the signed header, so the hash is unchanged), re-sign the header with another key, change creator / timestamp / treasury without re-signing. Edited block -> node A, original -> node B, then the rest of the history to both. The receiving nodes are synced from genesis, or joined mid-chain (the parent is the first block they ever saw, so the total supply is not loaded and ledger-dependent checks are off), or fresh (the edited block is block #1 itself). Restart stage (synced receivers, hash-preserving edits): the edited block reaches a node as a sibling of its tip, is stored and written to disk unvalidated, the node restarts from its simulated disk (real start-up) and must not end up with the edited transaction list on its longest chain. Oracles: (1) a block whose hash equals the original's but whose ordered transaction list differs is never accepted; (2) whenever A and B report the same tip hash their spendable sets are identical; (3) a header edit either changes the hash or the block is rejected. distinct_nontrivial = distinct (edit, block position, depth) where the edit applied and hashes were compared.",
+            rule: "run = honest history of 2..8/15 blocks (2-5 zero- and non-zero-fee payments each); the block at a seeded position is edited by one of 10 edits that keep it decodable: swap two transactions, replace a transaction by another valid one with the same fee, add / remove a zero-fee transaction, remove every transaction, duplicate the last transaction, insert a slip-less SPV-typed stub (standing for 0 or 1 transactions), change a transaction payload (all without touching the signed header, so the hash is unchanged), re-sign the header with another key, change creator / timestamp / treasury without re-signing. Edited block -> node A, original -> node B, then the rest of the history to both. The receiving nodes are synced from genesis, or joined mid-chain (the parent is the first block they ever saw, so the total supply is not loaded and ledger-dependent checks are off), or fresh (the edited block is block #1 itself). Restart stage (synced receivers, hash-preserving edits): the edited block reaches a node as a sibling of its tip, is stored and written to disk unvalidated, the node restarts from its simulated disk (real start-up) and must not end up with the edited transaction list on its longest chain. Oracles: (1) a block whose hash equals the original's but whose ordered transaction list differs is never accepted; (2) whenever A and B report the same tip hash their spendable sets are identical; (3) a header edit either changes the hash or the block is rejected. distinct_nontrivial = distinct (edit, block position, depth) where the edit applied and hashes were compared.",
             real: &["Block::deserialize_from_net/generate/generate_merkle_root/validate", "MerkleTree", "Blockchain::add_block"],
             stubs: &["SimIo", "SimConfig", "vendored ahash"],
             assumptions: &["genesis period >> depth"],
@@ -121,6 +122,7 @@ impl Scenario for C06 {
                 "swap-two-txs" | "replace-tx-equal-fee" => "genesis-swap",
                 "remove-zero-fee-tx" | "add-zero-fee-tx" => "genesis-remove",
                 "duplicate-last-tx" => "genesis-duplicate",
+                "remove-all-txs" => "genesis-remove-all",
                 other => other,
             }
         } else {
@@ -140,6 +142,18 @@ impl Scenario for C06 {
                 } else {
                     applied = false;
                 }
+            }
+            // block #1 is exempt from the "no transactions" rule: stripped of everything it must still fail
+            // its header's transaction commitment
+            "genesis-remove-all" => {
+                if e.transactions.is_empty() {
+                    applied = false;
+                } else {
+                    e.transactions.clear();
+                }
+            }
+            "remove-all-txs" => {
+                e.transactions.clear();
             }
             "genesis-duplicate" => match e.transactions.last().cloned() {
                 Some(t) => e.transactions.push(t),
